@@ -129,7 +129,7 @@ def run_case(work, idx, case, t0):
         after.update(snapshot(job, t))
     touches = [e for e in r["events"] if isinstance(e, list) and any(e[1] == t or e[1].startswith(t + "/") for t in watch)
                and "__pycache__" not in e[1]]
-    rec = {"case": case.id, "strategy": case.strategy, "target0": t0, "exc_class": r["exc_class"], "exc_mro": r.get("exc_mro") or [],
+    rec = {"case": case.id, "context": case.ctx, "strategy": case.strategy, "target0": t0, "exc_class": r["exc_class"], "exc_mro": r.get("exc_mro") or [],
            "exc_msg": (r["exc_msg"] or "")[:300], "changed": before != after, "touches": touches[:40],
            "reported": "Generated files" in (r["output"] or "") if case.strategy == "client" else (r["exc_class"] is None),
            "exit_code": r["exit_code"], "output_tail": (r["output"] or "")[-200:]}
@@ -149,8 +149,8 @@ def documented_ok(case, rec):
 
 def mc_module(cases, as_built, known):
     """TLA+ tables generated from the catalogue (as_built: violation id -> (phase, raised) observed on the current tree)."""
-    ids = sorted({c.id + "@" + c.strategy for c in cases})
-    by = {c.id + "@" + c.strategy: c for c in cases}
+    ids = sorted({c.key for c in cases})
+    by = {c.key: c for c in cases}
 
     def fn(name, f):
         return f"{name} == [x \\in VSet |-> CASE " + " [] ".join(f'x = "{i}" -> "{f(i)}"' for i in ids) + "]"
@@ -200,8 +200,8 @@ def run(tier, work, replay=None):
     # ---- judge (content): typed error, no side effect, valid accepted
     as_built = {}
     for (idx, c, t0), rec in zip(tasks, recs):
-        key = c.id + "@" + c.strategy
-        feats = {"violation": c.id, "strategy": c.strategy, "target0": t0}
+        key = c.key
+        feats = {"violation": c.id, "strategy": c.strategy, "target0": t0, "context": c.ctx}
         detail = {"observed": rec, "documented": c.documented, "note": c.note}
         if c.documented is None:
             if rec["exc_class"] is not None:
@@ -232,7 +232,7 @@ def run(tier, work, replay=None):
         for kn in known:
             vals = kn if isinstance(kn, list) else [kn]
             if c.id in vals or any(isinstance(x, str) and x.endswith("*") and c.id.startswith(x[:-1]) for x in vals):
-                known_ids.add(c.id + "@" + c.strategy)
+                known_ids.add(c.key)
     # ---- leg 1: TLC on the documented tables and on the as-built tables
     sd = work.sub("specs")
     for f in ("Pipeline.tla", "Pipeline_Trace.tla"):
@@ -249,7 +249,7 @@ def run(tier, work, replay=None):
     # ---- leg 3: traces
     traces = []
     for (idx, c, t0), rec in zip(tasks, recs):
-        tr = [{"e": "case", "v": c.id + "@" + c.strategy, "target0": t0}]
+        tr = [{"e": "case", "v": c.key, "target0": t0}]
         for tch in rec["touches"][:6]:
             tr.append({"e": "touch", "what": tch[0]})
         tr.append({"e": "end", "err": ("CodeGenException" if (c.documented == "CodeGenException" and "CodeGenException" in rec["exc_mro"]) else (rec["exc_class"] or "none")),
@@ -264,10 +264,10 @@ def run(tier, work, replay=None):
     for t in sorted(bad):
         idx, c, t0 = tasks[t]
         why = [i for i, tt in inv if tt == t]
-        key = c.id + "@" + c.strategy
+        key = c.key
         if key in known_ids:
             continue
-        v.violation({"violation": c.id, "strategy": c.strategy, "target0": t0}, "trace_rejected:" + (",".join(why) or "order"),
+        v.violation({"violation": c.id, "strategy": c.strategy, "target0": t0, "context": c.ctx}, "trace_rejected:" + (",".join(why) or "order"),
                     {"trace": traces[t], "observed": recs[t]})
     mut = config_not_mutated(work)
     for name, same in mut.items():
@@ -276,8 +276,8 @@ def run(tier, work, replay=None):
     v.cov["config_dicts_checked_for_mutation"] = len(mut)
     v.cov["evaluations"] = len(recs)
     v.cov["traces_validated_against_impl"] = len(traces) - len(bad)
-    v.cov["distinct_nontrivial"] = len({c.id for c in cases if c.documented})
-    v.cov["valid_configurations"] = len({c.id for c in cases if not c.documented})
+    v.cov["distinct_nontrivial"] = len({c.key for c in cases if c.documented})
+    v.cov["valid_configurations"] = len({c.key for c in cases if not c.documented})
     v.cov["rule"] = ("cases = catalogue of single-constraint violations (configuration constraints, GraphQL syntax, one invalid "
                      "schema per graphql-core schema-validation rule, one invalid operation per specified rule) x pre-existing "
                      "target state; non-trivial = exactly one constraint violated (valid controls counted separately)")
